@@ -50,7 +50,7 @@ End ExprInd.
    the trace invariant and advances the step counter by at most n           *)
 Section Logic.
 Variable T : tables.
-Variable tools : list string.          (* names of the registered tools *)
+Variable toolp : string -> bool.        (* which tool names may be invoked *)
 
 Definition prim_ok (p : prim) : bool :=
   match p with
@@ -59,7 +59,7 @@ Definition prim_ok (p : prim) : bool :=
   | PCmp op _ _ => mem op (keys (t_comparisons T))
   | PName id | PCall id _ _ => mem id (keys (t_functions T))
   | PMkList _ | PMkTuple _ => true
-  | PTool t _ _ => mem t tools
+  | PTool t _ _ => toolp t
   end.
 
 Definition inv (s : st) : Prop := Forall (fun p => prim_ok p = true) (fst s).
@@ -266,13 +266,13 @@ End Logic.
 (* statements used by Property.v *)
 
 Lemma trace_confined_proof T O e :
-  Forall (fun p => prim_ok T [] p = true) (fst (snd (run_eval T O e))).
+  Forall (fun p => prim_ok T (fun _ => false) p = true) (fst (snd (run_eval T O e))).
 Proof.
-  unfold run_eval. destruct (spec_eval T [] O e ([], 0)) as [Hi _]. apply Hi. constructor.
+  unfold run_eval. destruct (spec_eval T (fun _ => false) O e ([], 0)) as [Hi _]. apply Hi. constructor.
 Qed.
 
 Lemma steps_bounded_proof T O e : snd (snd (run_eval T O e)) <= size e.
-Proof. unfold run_eval. destruct (spec_eval T [] O e ([], 0)) as [_ Hs]. simpl in Hs. exact Hs. Qed.
+Proof. unfold run_eval. destruct (spec_eval T (fun _ => false) O e ([], 0)) as [_ Hs]. simpl in Hs. exact Hs. Qed.
 
 Lemma forbidden_is_error_proof T O e s :
   mem (class_of e) (t_handled T) = false ->
@@ -290,13 +290,16 @@ Proof.
   - intros H. rewrite (IH H). apply orb_true_r.
 Qed.
 
+Definition tool_allowed (reg : list toolspec) (allowed : option (list cap)) (t : string) : bool :=
+  match find_tool reg t with Some s => cap_ok allowed s | None => false end.
+
 Lemma spec_tool_pathway T O reg allowed e :
-  spec T (map tl_name reg) (size e) (tool_pathway T O reg allowed e).
+  spec T (tool_allowed reg allowed) (size e) (tool_pathway T O reg allowed e).
 Proof.
   destruct e; try (eapply spec_weaken; [apply spec_fail|lia]).
   destruct e; try (eapply spec_weaken; [apply spec_fail|lia]).
   simpl tool_pathway. destruct (find_tool reg id) as [t|] eqn:Hf; [|eapply spec_weaken; [apply spec_fail|lia]].
-  destruct (negb (cap_ok allowed t)); [eapply spec_weaken; [apply spec_fail|lia]|].
+  destruct (cap_ok allowed t) eqn:Hcap; cbn [negb]; [|eapply spec_weaken; [apply spec_fail|lia]].
   eapply spec_weaken with (n := list_sum (map size args) + (list_sum (map (fun kw => size (snd kw)) kws) + (0 + 0)));
     [|cbn [size]; lia].
   apply spec_bind.
@@ -304,11 +307,11 @@ Proof.
   intros avs. apply spec_bind.
   { apply spec_eval_kws_tool. apply Forall_forall. intros x _. apply spec_eval. }
   intros kvs. apply spec_bind; [|intros _; apply spec_of_opt].
-  apply spec_emit. simpl. eapply mem_find_tool; eauto.
+  apply spec_emit. simpl. unfold tool_allowed. rewrite Hf. exact Hcap.
 Qed.
 
 Lemma tool_pathway_confined_proof T O reg allowed e :
-  Forall (fun p => prim_ok T (map tl_name reg) p = true)
+  Forall (fun p => prim_ok T (tool_allowed reg allowed) p = true)
          (fst (snd (tool_pathway T O reg allowed e ([], 0)))).
 Proof. destruct (spec_tool_pathway T O reg allowed e ([], 0)) as [Hi _]. apply Hi. constructor. Qed.
 
@@ -329,8 +332,8 @@ Qed.
 Definition spec_tables : tables :=
   mkTables spec_operators spec_comparisons spec_boolops spec_functions spec_classes.
 
-Lemma prim_ok_within T tools p :
-  tables_within_spec T = true -> prim_ok T tools p = true -> prim_ok spec_tables tools p = true.
+Lemma prim_ok_within T toolp p :
+  tables_within_spec T = true -> prim_ok T toolp p = true -> prim_ok spec_tables toolp p = true.
 Proof.
   unfold tables_within_spec. intros H.
   repeat (apply andb_true_iff in H; destruct H as [H ?]).
